@@ -153,6 +153,30 @@ func extBytesEqual(fr *frame, a []value) value {
 }
 
 func extBytesCompare(fr *frame, a []value) value {
+	x, y := a[0].([]value), a[1].([]value)
+	if anySym(x) || anySym(y) {
+		// lexicographic comparison as an ite chain over the common prefix
+		tb := fr.i.tb
+		n := len(x)
+		if len(y) < n {
+			n = len(y)
+		}
+		var tail uint64
+		switch {
+		case len(x) < len(y):
+			tail = ^uint64(0)
+		case len(x) > len(y):
+			tail = 1
+		}
+		r := tb.Const(64, tail)
+		for k := n - 1; k >= 0; k-- {
+			p, _ := fr.i.intTerm(x[k])
+			q, _ := fr.i.intTerm(y[k])
+			r = tb.Ite(tb.Cmp(OpUlt, p, q), tb.Const(64, ^uint64(0)),
+				tb.Ite(tb.Cmp(OpUlt, q, p), tb.Const(64, 1), r))
+		}
+		return mkInt(types.Int, r)
+	}
 	return bytes.Compare(concBytes(fr, a[0], "bytes.Compare"), concBytes(fr, a[1], "bytes.Compare"))
 }
 
